@@ -11,12 +11,19 @@ for f in sorted(glob.glob(os.path.join(V, "seeded", "*", "meta.json"))):
     files = sorted({l[6:] for l in patch.splitlines() if l.startswith("+++ b/")})
     for p, r in m["checks"].items():
         key = r["first_violations"][0].split("]")[0].replace("violation [", "") if r["first_violations"] else ""
-        rows.append("| %s | %s | %s | %s | %s (%s, %ss) | %s |" % (m["name"], p, ", ".join(files), "yes" if ok else "NO: %s" % c, r["verdict"], r["tier"], r["seconds"], key))
+        first = m.get("first_run", {}).get(p, {}).get("verdict")
+        if not first:
+            first = "MISSED, then strengthened" if ("MISSED" in m.get("history", "")[:40] or "would have MISSED" in m.get("history", "")) else r["verdict"]
+        elif first != "CAUGHT":
+            first += ", then strengthened"
+        rows.append("| %s | %s | %s | %s | %s | %s (%s, %ss) | %s |" % (m["name"], p, ", ".join(files), "yes" if ok else "NO: %s" % c, first, r["verdict"], r["tier"], r["seconds"], key))
 out = ["# Seeded defects written by independent sub-agents", "",
        "Each sub-agent got only the text of one property and a scratch worktree of /repo. `tools/seed.py` then confirmed",
        "independently that the change builds, vets, passes the repository's suite, and that the agent's demonstration fails",
        "with the change and passes without it (column *confirmed*), applied the patch to /repo, ran `./check <ID> quick`, and",
        "restored /repo. `seeded/<name>/` holds patch.diff, the demonstration and meta.json (including what the defect needs to manifest).", "",
-       "| seeded defect | property | files changed | confirmed | our check | violation key |", "|---|---|---|---|---|---|"] + rows
+       "Column *first run* is the verdict of the check as it stood when the defect arrived (meta.json `history` says what was",
+       "changed afterwards); *our check* is the verdict of the current check.", "",
+       "| seeded defect | property | files changed | confirmed | first run | our check | violation key |", "|---|---|---|---|---|---|---|"] + rows
 open(os.path.join(V, "SEEDED.md"), "w").write("\n".join(out) + "\n")
 print(len(rows), "rows")
